@@ -120,7 +120,10 @@ Silent ==
        \/ /\ e.a \in ServerSyncs /\ \E c \in Clients : LoseDead(e.s, c)
     /\ UNCHANGED l
 
-TraceNext == Consume \/ Silent
+\* overlapping calls of concurrent executions: alternatives, see TraceIO.tla
+AltJump == IsAltRec(l) /\ l' \in AltTargets(l) /\ UNCHANGED vars
+
+TraceNext == Consume \/ Silent \/ AltJump
 TraceSpec == TraceInit /\ [][TraceNext]_tvars
 
 Progress == TraceProgress(l)
